@@ -12,6 +12,8 @@ FIRST = {
     "C01_2": ("-", "C01.sign-table: metric indeterminates per signature POSITION; custom bases whose labels start at 0 / 3"),
     "C02_1": ("AE", "lazily filled sign-table stand-in (dict.get / `in` do not trigger __missing__) as a C02.table representative"),
     "C02_2": ("-", "C08.symbolic-operand-order (real constructor, shuffled key pattern); C15.input-forms compares key ORDER"),
+    "C03_1": ("AE", "lazily filled sign-table representative in C03.table (dict.get bypasses __missing__)"),
+    "C13_1": ("other", "C08.key-provenance also serves C13 (wrapper(func) must be stored under func.__name__)"),
     "C04_1": ("-", "C04.cells representative 'same blades, other storage order'; C08.no-positional-codegen recognises zip over items()/values()/keys()"),
     "C04_2": ("other", "C11.dunder-agreement also serves C04"),
     "C05_2": ("AE", "custom-basis representatives for hodge / rp / gp; stand-in algebra resolves missing methods (e.g. _swap_blades_bin) from the source"),
